@@ -18,4 +18,10 @@ CHECKS = {
         "text": "All 121 ordered rep pairs x factors: the <T> checkers and every spelling of the rep-changing conversion are executed on exhaustive 8/16-bit sources, per-step threshold neighbourhoods, nextafter walks around each target limit, NaN/inf/zeros/denormals and random patterns, under gcc and clang sanitizers in trap mode. Cleared inputs must convert without a trap to the exact (integral) or tolerance-bounded (floating) value; uncastable inputs must be reported lossy; for integral sources overflow may be reported only when a step really leaves its range.",
         "note": "Trusted: oracle in harness/vf_repconv.hh (128-bit integer steps; long double with stated ulp tolerances for floating paths); wide sources are sampled.",
     },
+    "C12": {
+        "module": ("vf.props.c12", "C12"), "engine": "planeA",
+        "technique": "runtime monitoring: exhaustive sweep vs sieve, adversarial 64-bit sets vs deterministic Miller-Rabin oracle, 128-bit oracle + unsigned-overflow traps for modular helpers",
+        "text": "is_prime is run on every n below 2^26 (2^30 thorough) against a segmented sieve and find_prime_factor below 2^24 (2^28); oracle-generated adversarial 64-bit sets and 2-adic false-square candidates are judged by an independent 12-base Miller-Rabin; the five modular helpers run on boundary/random operands (both mul_mod paths, moduli above 2^63) under clang unsigned-integer-overflow traps so that any intermediate wrap-around is attributed to its operands.",
+        "note": "Trusted: oracle code in harness/vf_numth.cc (no code shared with au/utility). 64-bit space sampled, not enumerated. A job that fails to return twice within a 20x time budget is reported as 'does not return'.",
+    },
 }
